@@ -452,8 +452,10 @@ func (w *World) QueryRule(rule Rule, syms *SymbolTable) *FactSet {
 }
 
 func (w *World) Clone() *World {
+	// the clone gets its own backing array: appending to a copied slice header
+	// would write into storage shared with the source world and its other clones
 	newFacts := new(FactSet)
-	*newFacts = *w.facts
+	*newFacts = append(FactSet{}, *w.facts...)
 	return &World{
 		facts:     newFacts,
 		rules:     append([]Rule{}, w.rules...),
